@@ -155,7 +155,8 @@ template <typename Tag, typename Img> std::string op_small(std::string const& pa
 template <typename Tag, typename Img> std::string dispatch(std::vector<std::string> const& w, std::string const& path) {
     auto I = [&](size_t k) { return (int)hv::to_ll(w[k]); };
     if (w[0] == "crop" && w.size() == 8) { spill(path, unhex(w[7])); return op_crop<Tag, Img>(path, I(3), I(4), I(5), I(6)); }
-    if (w[0] == "paths" && w.size() == 4) { spill(path, unhex(w[3])); return op_paths<Tag, Img>(path); }
+    // paths | pathsA (the suffix only selects the model variant)
+    if (w[0].compare(0, 5, "paths") == 0 && w.size() == 4) { spill(path, unhex(w[3])); return op_paths<Tag, Img>(path); }
     if (w[0] == "small" && w.size() == 10) { spill(path, unhex(w[9])); return op_small<Tag, Img>(path, I(3), I(4), I(5), I(6), I(7), I(8)); }
     return "bad-op"; }
 
